@@ -132,7 +132,7 @@ func total(args []string) {
 			}
 			var text string
 			if v.Kind == "chars" {
-				text = strings.NewReplacer("~", "é", "\f", "\xff").Replace(v.Ts[0])
+				text = charSubst.Replace(v.Ts[0])
 			} else {
 				text = joinMin(v.Ts)
 			}
